@@ -1285,6 +1285,85 @@ func Yield() {
 	s.mem = mix(s.mem, th)
 }
 
+// Choice is an environment answer that the explorer enumerates like a scheduling decision (option 0 is the
+// default): n alternatives, none of them a preemption.  The running thread's history absorbs the answer, so
+// state hashing distinguishes executions that received different answers.
+func Choice(n int) int {
+	if Mode == Pass || s == nil || s.killing || n <= 1 {
+		return 0
+	}
+	sc := s
+	idx := 0
+	if sc.pos < len(sc.prefix) {
+		idx = sc.prefix[sc.pos]
+		if idx >= n {
+			sc.diverged = fmt.Sprintf("replay divergence at choice %d: prefix wants answer %d of %d", sc.pos, idx, n)
+			idx = 0
+		}
+	} else if sc.policy != nil {
+		idx = sc.policy(n, false)
+		if idx < 0 || idx >= n {
+			idx = 0
+		}
+	}
+	sc.pos++
+	sc.x.Points = append(sc.x.Points, Point{N: n, CurEnabled: false, Chosen: idx})
+	sc.x.Choices = append(sc.x.Choices, idx)
+	if sc.cur != nil {
+		sc.cur.h = mix(sc.cur.h, 0x9e3779b9, uint64(idx), uint64(n))
+	}
+	return idx
+}
+
+// Pool replaces sync.Pool.  Whether Get still finds an item that was Put earlier is up to the garbage
+// collector: under exploration it is an environment answer (reuse the most recently Put item / the pool was
+// emptied), so both histories are explored.
+type Pool struct {
+	base
+	New   func() any
+	real  sync.Pool
+	items []any
+}
+
+func (p *Pool) Get() any {
+	if Mode == Pass || s == nil {
+		p.real.New = p.New
+		return p.real.Get()
+	}
+	if s.killing {
+		return nil
+	}
+	if p.touch() {
+		p.items = nil
+	}
+	if n := len(p.items); n > 0 {
+		if Choice(2) == 0 {
+			x := p.items[n-1]
+			p.items = p.items[:n-1]
+			return x
+		}
+		p.items = nil
+	}
+	if p.New != nil {
+		return p.New()
+	}
+	return nil
+}
+
+func (p *Pool) Put(x any) {
+	if Mode == Pass || s == nil {
+		p.real.Put(x)
+		return
+	}
+	if s.killing {
+		return
+	}
+	if p.touch() {
+		p.items = nil
+	}
+	p.items = append(p.items, x)
+}
+
 // CurThread is the id of the running logical thread (-1 in Pass mode).
 func CurThread() int {
 	if Mode == Pass || s == nil {
